@@ -26,6 +26,9 @@ CLAIMS = {
     'C05': ("Decided (Kani on the real evaluator, complete over the stated domains): AND/OR/NOT are Kleene three-valued logic over all 9/3 operand combinations; =,<>,<,<=,>,>= on INT agree with integer order for every pair; NULL operands propagate through every comparison and arithmetic operator; boolean context maps NULL to false; column bindings are bounds-checked; 32-bit add/sub are exact; arithmetic on non-numerics is an error; the ORDER BY comparator is antisymmetric, transitive and follows integer order / direction for every INT/NULL key. The Pratt parser's binding-power table puts OR < AND < comparison/LIKE/IN/BETWEEN/IS < additive/|| < multiplicative, all left-associative, NOT only before IN/BETWEEN/LIKE (Verus on infix_binding_power); the operand of unary minus stops before every additive, comparison and boolean operator and the operand of NOT before AND/OR but after comparisons (Verus on the two arms of parse_prefix); IS [NOT] NULL, [NOT] BETWEEN, [NOT] IN (list) and [NOT] LIKE return exactly the three-valued verdict (NULL operand => NULL, otherwise negation flips it) for every operand value (Verus on the arms of evaluate and on string_like).",
             "Outside: the Pratt driver loop (parse_expr_bp / parse_infix) and the remaining prefix arms, the recursion of evaluate() over sub-expressions (each arm is checked against an abstract value of its operands), joins, grouping, sort, DISTINCT, LIMIT, DML row addressing; induction over expression depth is stated, not machine-checked.",
             "complete Kani harnesses (loop-free, full-domain) on the real crate + Verus contracts on extracted functions and single match arms", "4 C05"),
+    'C07': ("Decided for all inputs (Verus): ConstraintValidator::validate_not_null_constraints rejects a value vector exactly when some NOT NULL column (within the vector) holds NULL and accepts every other vector (loop invariant over the schema's columns); DmlExecutor::insert and ::update log and write a row image only after the constraint validation of exactly the values that image is built from has succeeded (full row for INSERT, old values + assignments for UPDATE), on every path.",
+            "Outside: UNIQUE / PRIMARY KEY / foreign-key probing (ConstraintValidator::search_index / search_table: index B-tree probes through the pager inside closures; a not-yet-committed duplicate is deliberately 'no conflict', so two open transactions inserting the same key are not decided here), index maintenance, ALTER / CREATE UNIQUE INDEX on existing data.",
+            "Verus contracts on verbatim-extracted functions; validation-before-write as a typestate precondition of the logger", "4 C07"),
     'C09': ("Decided (Kani, full domain): page-zero header state that must survive close/reopen -- aborted bitmap set/test/clear exactness and frame, header construction (counters, config fields, aligned page size); reload of the bitmap returns exactly the recorded ids; a checkpoint writes the header and every dirty page and leaves an openable empty log (Verus). Pager::allocate_page / dealloc_page keep the free list recorded in page zero a well-formed chain (see C11) and every page they hand out or free is dirty or already written; every write latch marks its frame dirty before access (Verus); DmlExecutor::insert persists the incremented next-row-id of the table it inserted into.",
             "Outside: catalog rows, overflow chains across reopen, Pager::sync_header I/O; ids >= 8192 are dropped by the bitmap (recorded known finding).",
             "complete Kani harnesses + an injected Kani function contract on the real crate + Verus contracts on extracted pager functions", "4 C09"),
@@ -57,7 +60,6 @@ CLAIMS = {
 
 NA = {
     'C06': "relational equivalence of two whole-pipeline executions under different optimizer choices (memo rewriting over enum trees + index maintenance over pager-backed trees); no single-call contract states 'same multiset of rows'",
-    'C07': "UNIQUE/PK enforcement is an index B-tree probe through the pager plus a closure; 'always hold in committed data' is a history invariant over table + index trees, outside both tools",
     'C08': "quantifies over crash points inside recovery and repeated opens of the whole engine; recovery re-executes logical DML/DDL through every layer; the log-side kernels are counted under C17/C01/C02",
     'C13': "the removal decision is an expression inside a closure inside Catalog::vacuum_btree's loop -- not an item, cannot carry a contract without refactoring; Tuple::vaccum_with is under contract (C18, unit versionchain: keeps exactly the deltas at or above the horizon), but the property-level lemma 'no snapshot at or above the horizon decodes differently afterwards' has an abstract counterexample that cannot be exhibited on the real code while the creator-stamping finding is open (DESIGN section 5), so it is not registered",
     'C14': "schedules, deadlock freedom, liveness: Kani has no threads; Verus would need a rewritten model of the parking_lot latches",
